@@ -18,6 +18,7 @@ mod engines {
 	pub mod msgpack;
 	pub mod stream;
 	pub mod bridge;
+	pub mod translate;
 }
 mod props {
 	pub mod c01;
@@ -141,6 +142,8 @@ fn real_main() {
 			}
 			"C09" => {
 				engines::input::run(&mut out, &mut rng.fork(), thorough);
+				// translate(None) as a whole: detection on one handle, then the selected module.
+				engines::translate::run(&mut out, &mut rng.fork(), thorough);
 				props::c09::run(&mut out, &mut rng.fork(), thorough);
 			}
 			"C05" => {
